@@ -234,8 +234,8 @@ where
 
 fn cases<B: Bk>(tier: Tier) -> Vec<Case> {
     let mut out = vec![];
-    let ns_pow2: Vec<usize> = tier.pick(vec![1, 2, 4, 8, 16, 32], vec![1, 2, 4, 8, 16, 32, 64]);
-    let ns_odd: Vec<usize> = vec![3, 5, 6, 7, 9, 12, 13];
+    let ns_pow2: Vec<usize> = tier.pick(vec![1, 2, 4, 8, 16, 32, 64], vec![1, 2, 4, 8, 16, 32, 64, 128, 256, 1024, 4096]);
+    let ns_odd: Vec<usize> = tier.pick(vec![3, 5, 6, 7, 9, 12, 13], vec![3, 5, 6, 7, 9, 10, 11, 12, 13, 15, 17, 31, 33, 63, 65]);
     let smax = tier.pick(4, 5);
     for &op in ALL_OPS.iter() {
         let mut ns = ns_pow2.clone();
@@ -245,7 +245,16 @@ fn cases<B: Bk>(tier: Tier) -> Vec<Case> {
         for &n in &ns {
             // rotations/automorphisms enumerate O(N) parameters inside: keep shapes smaller at larger N
             let heavy = op.needs_pow2() && n >= 32;
-            let smax_n = if heavy { 2 } else { smax };
+            let very_heavy = op.needs_pow2() && n >= 256;
+            let smax_n = if very_heavy {
+                1
+            } else if heavy {
+                2
+            } else if n >= 128 {
+                2
+            } else {
+                smax
+            };
             for rs in 1..=smax_n {
                 for a_s in 1..=(if op.uses_a() { smax_n } else { 1 }) {
                     for bs in 1..=(if op.uses_b() { smax_n } else { 1 }) {
@@ -254,6 +263,9 @@ fn cases<B: Bk>(tier: Tier) -> Vec<Case> {
                             for rc in 0..cols {
                                 for ac in 0..cols {
                                     if heavy && cols == 3 && (rc + ac) % 2 == 1 {
+                                        continue;
+                                    }
+                                    if (very_heavy || n >= 128) && !(cols == 2 && rc == 1 && ac == 0) {
                                         continue;
                                     }
                                     let vals: &[Val] =
@@ -431,7 +443,7 @@ where
 
 fn ring_cases<B: Bk>(tier: Tier) -> Vec<RingCase> {
     let mut out = vec![];
-    let bigs: Vec<usize> = tier.pick(vec![8, 16, 32, 64], vec![8, 16, 32, 64, 128, 256]);
+    let bigs: Vec<usize> = tier.pick(vec![2, 4, 8, 16, 32, 64], vec![2, 4, 8, 16, 32, 64, 128, 256, 1024, 4096]);
     for &n_big in &bigs {
         for ratio in [2usize, 4, 8, 16] {
             if n_big / ratio < 1 || n_big % ratio != 0 {
@@ -634,7 +646,7 @@ where
 {
     let seed = run.seed;
     let mut cs = vec![];
-    for n in run.tier.pick(vec![8usize, 16, 32], vec![8usize, 16, 32, 64, 128]) {
+    for n in run.tier.pick(vec![8usize, 16, 32, 64], vec![8usize, 16, 32, 64, 128, 256]) {
         for law in ["rotate_compose", "automorphism_compose", "galois_element"] {
             cs.push(LawCase {
                 law: law.into(),
@@ -864,7 +876,7 @@ fn big_cases<B: Bk>(tier: Tier) -> Vec<BigCase> {
     for &op in BIG_OPS.iter() {
         let uses_b = matches!(op, BigOp::AddInto | BigOp::AddSmallInto | BigOp::Sub | BigOp::SubSmallA | BigOp::SubSmallB);
         let uses_a = !matches!(op, BigOp::NegateAssign | BigOp::AutomorphismAssign);
-        for &n in tier.pick(&[8usize, 16][..], &[8usize, 16, 32, 64][..]) {
+        for &n in tier.pick(&[8usize, 16, 32][..], &[8usize, 16, 32, 64, 128, 256][..]) {
             for rs in 1..=smax {
                 for a_s in 1..=(if uses_a { smax } else { 1 }) {
                     for bs in 1..=(if uses_b { smax } else { 1 }) {
